@@ -25,6 +25,19 @@ trap cleanup EXIT
 } > "$SCRATCH/go.mod"
 cp "$REPO/go.sum" "$SCRATCH/go.sum"
 
+# The probe-based checks compile thousands of generated packages; each leaves an entry in go's build cache.
+# Keep the cache bounded: `setup` starts from an empty cache when it has grown past 6 GB (nothing else runs then);
+# a check only drops entries that no build has touched for two hours (safe next to concurrent builds, this is
+# how go trims its cache itself, just with a shorter horizon).
+trim_cache() {
+  local dir kb
+  dir="$(go env GOCACHE 2>/dev/null)"; [ -d "$dir" ] || return 0
+  kb=$(du -sk "$dir" 2>/dev/null | cut -f1); kb=${kb:-0}
+  if [ "$1" = setup ] && [ "$kb" -gt 6000000 ]; then go clean -cache >/dev/null 2>&1
+  elif [ "$kb" -gt 15000000 ]; then find "$dir" -type f -mmin +120 -delete 2>/dev/null; fi
+  return 0
+}
+
 build() {
   ( cd "$HERE/xverif" && go build -modfile="$SCRATCH/go.mod" -o "$SCRATCH/xv" ./cmd/xv ) 2> "$SCRATCH/build.err"
   local rc=$?
@@ -37,6 +50,7 @@ build() {
 
 case "${1:-}" in
   setup)
+    trim_cache setup
     build
     "$SCRATCH/xv" setup --repo "$REPO" --verif "$HERE" --scratch "$SCRATCH" --modfile "$SCRATCH/go.mod"
     exit $?
@@ -47,6 +61,7 @@ case "${1:-}" in
     exit $?
     ;;
   C[0-9][0-9])
+    trim_cache check
     build
     "$SCRATCH/xv" check --repo "$REPO" --verif "$HERE" --scratch "$SCRATCH" --modfile "$SCRATCH/go.mod" \
         --tier "${2:-${VERIF_TIER:-quick}}" --seed "${VERIF_SEED:-0}" "$1"
